@@ -1095,6 +1095,14 @@ Proof.
     apply bsearch_correct in Hb; auto. eapply Permutation_in; [apply Permutation_sym, sort_perm|exact Hb].
 Qed.
 
+Lemma blocal_push K rc r0 T :
+  ~ In r0 rc -> (match pc T with S3 | S4 => In (cur T) rc | _ => True end) ->
+  blocal K rc T -> blocal K (r0 :: rc) T.
+Proof.
+  intros Hn Hc. unfold blocal. destruct (pc T); auto; intros (X1 & X2 & X3);
+    (rewrite !from_cons_ne; [split; [right; auto|auto]| | ]; intros Z; rewrite Z in Hn; tauto).
+Qed.
+
 Lemma binv_step s t : RInv s -> NInv s -> BInv s -> BInv (fst (step sort s t)).
 Proof.
   intros I N B. pose proof B as [B1 B2 B3].
@@ -1115,22 +1123,21 @@ Proof.
   - (* J3 *) bloc s t T Hpc.
   - (* J4 *) bloc s t T Hpc.
   - (* J5 *) destruct LT as (J & _). eapply (binv_frame s _ t); try reflexivity; tsimp; ssimp; auto.
-    + intros u Hu. rewrite upd_other; auto. congruence.
+    + intros u Hu. rewrite upd_other; auto; congruence.
     + rewrite (NJT J). cbn. lia.
   - (* J6 *) destruct LT as (J & O & _). destruct (Nat.eqb_spec (head s) (chead T)) as [E|E]; cbn [fst].
     + assert (NI : ~ In (S t) (recs s)) by (intros X; apply JT in X; congruence).
       constructor; ssimp.
       * intros u. thr_cases u t; [unfold blocal; tsimp; auto|].
-        assert (Bu := B1 u). assert (Lu := Iloc u). unfold blocal, rlocal, rlocalP in *.
-        destruct (pc (thr s u)); auto; destruct Bu as (X1 & X2 & X3); destruct Lu as (Y1 & Y2 & _);
-          (rewrite !from_cons_ne; [split; [right; auto|auto]| | ]; intros Z; rewrite Z in NI; tauto).
+        apply blocal_push; auto. assert (Lu := Iloc u). unfold rlocal, rlocalP in Lu.
+        destruct (pc (thr s u)); tauto.
       * intros u. thr_cases u t; tsimp; [discriminate|auto].
       * intros u. thr_cases u t; tsimp.
         -- rewrite (NJT J). cbn. lia.
         -- specialize (B3 u). unfold rbound in *; ssimp. cbn [length]. lia.
     + bloc s t T Hpc.
   - (* J7 *) destruct (rnext s (S t) =? 0); cbn [fst].
-    + fin_tac. apply (binv_fin s t T); auto; try congruence. lia.
+    + fin_tac. apply (binv_fin s t T); auto; try congruence. rewrite <- HT; lia.
     + bloc s t T Hpc.
   - (* J8 *) eapply (binv_frame s _ t); try reflexivity; tsimp; ssimp; auto.
     + intros u Hu. unfold upd. destruct (S u =? cur T); lia.
@@ -1141,20 +1148,20 @@ Proof.
       { unfold upd. destruct (Nat.eqb_spec (S t) (cur T)) as [<-|]; lia. }
       lia.
   - (* J9 *) destruct (rnext s (cur T) =? 0); cbn [fst].
-    + fin_tac. apply (binv_fin s t T); auto; try congruence. lia.
+    + fin_tac. apply (binv_fin s t T); auto; try congruence. rewrite <- HT; lia.
     + bloc s t T Hpc.
   - (* P1 *) bloc s t T Hpc.
   - (* P2 *) bloc s t T Hpc.
   - (* P3 *) destruct (cell s (cj T) =? nd T); fin_tac.
     + apply (binv_fin s t (set_held T (upd (held T) (sl T) (nd T)))); auto; tsimp; try congruence. rewrite <- HT. lia.
-    + apply (binv_fin s t T); auto; try congruence. lia.
+    + apply (binv_fin s t T); auto; try congruence. rewrite <- HT; lia.
   - (* C1 *) fin_tac. destruct Hfin as [[A1 [A2 _]] A3]. tsimp.
     eapply (binv_frame s _ t); try reflexivity; ssimp; auto.
     + eapply start_blocal; eauto.
     + rewrite A1, A2. auto.
     + rewrite A2. unfold rbound in *. ssimp. lia.
   - (* X0 *) destruct (pool s) as [|f p]; cbn [fst].
-    + fin_tac. apply (binv_fin s t T); auto; try congruence. lia.
+    + fin_tac. apply (binv_fin s t T); auto; try congruence. rewrite <- HT; lia.
     + bloc s t T Hpc.
   - (* X1 *) eapply (binv_frame s _ t); try reflexivity; tsimp; ssimp; auto.
     + unfold blocal; tsimp; auto.
@@ -1187,6 +1194,6 @@ Proof.
       eapply (binv_local s _ t); try reflexivity; eauto; try (subst T; reflexivity).
       * unfold in_retire; tsimp. rewrite <- HT, Hpc. auto.
       * unfold blocal; tsimp. rewrite D in X2. cbn [length] in X2. split; auto. split; [lia|auto].
-  - (* U1 *) fin_tac. apply (binv_fin s t T); auto; try congruence. lia.
+  - (* U1 *) fin_tac. apply (binv_fin s t T); auto; try congruence. rewrite <- HT; lia.
   - (* Fin *) exact B.
 Qed.
